@@ -241,7 +241,7 @@ LENS = [1, 2047, 2048, 2049, 70000, 100, 5000, 33000, 300000, 1040000]
 
 
 def random_hybrid(rng, efi_ok=True):
-    pe = rng.choice([1, 1, 1, 2, 3, 4])
+    pe = rng.choice([1, 1, 1, 2, 3, 4, 0, 5])     # 0 / 5, 2 with efi, 3 with mac: refused (d0ed30b)
     mid = rng.choice([None, 0, 0x12345678, 0xffffffff])
     po = rng.choice([0, 0, 0, 1, 63, 64, 2048, 100000])
     gs = rng.choice([32, 32, 32, 63, 1, 17, 0, 64])
@@ -317,7 +317,7 @@ def random_history(run, rng):
         if run.hdo((rng.choice(['AddFile', 'AddSigFile']), (), nm, ln)) or rng.random() < 0.3:
             run.hdo(abt.el((nm,), ls=rng.choice([None, None, 1, 8, 200]), efi=True))
             efis.append((nm,))
-    if rng.random() < 0.2:                        # a second platform-0 style section (same platform as the validation entry)
+    if rng.random() < 0.3:                        # a second platform-0 style section (same platform as the validation entry)
         nm = rng.choice(OTHER)
         run.hdo(('AddSigFile', (), nm, rng.choice(BOOTLENS)))
         run.hdo(abt.el((nm,), ls=4))
